@@ -56,6 +56,9 @@ def run(chk, repo: Repo):
     _r2(chk, repo)
     _r3(chk, repo)
     _r4_r5(chk, repo)
+    chk.rule("C16-R6", "Levenberg-Marquardt: accepting the trial point replaces every quantity that was computed from the iterate "
+                       "(residual, Jacobian, objective) by its trial twin in the same branch", floor=3)
+    _r6(chk, repo)
 
 
 def _r1(chk, repo):
@@ -215,3 +218,105 @@ def _r4_r5(chk, repo):
         fn = repo.func(f"{SOLVER}:{name}")
         body = [_norm(s) for s in strip_docstring(fn.body)]
         chk.add("C16-R5", f"{SOLVER}:{name}", body == want, site(repo, fn), "textbook expression", f"{name} is {body}", fn)
+
+
+# ------------------------------------------------------------------------------------------------ R6
+class _Subst(ast.NodeTransformer):
+    def __init__(self, m):
+        self.m = m
+
+    def visit_Name(self, n):
+        return ast.Name(id=self.m.get(n.id, n.id), ctx=n.ctx)
+
+
+def _strip_copy(e):
+    while isinstance(e, ast.Call):
+        nm = (call_name(e) or "")
+        if nm.rsplit(".", 1)[-1] == "copy" and len(e.args) == 1 and not e.keywords:
+            e = e.args[0]
+        elif isinstance(e.func, ast.Attribute) and e.func.attr == "copy" and not e.args:
+            e = e.func.value
+        else:
+            break
+    return e
+
+
+def _assigned_pairs(stmts):
+    """(name, value) for every single-name / tuple assignment in the statement list, descending into if/else (not loops)."""
+    for s in stmts:
+        if isinstance(s, ast.Assign) and len(s.targets) == 1:
+            t, v = s.targets[0], s.value
+            if isinstance(t, ast.Name):
+                yield t.id, v, s
+            elif isinstance(t, ast.Tuple) and isinstance(v, ast.Tuple) and len(t.elts) == len(v.elts):
+                for a, b in zip(t.elts, v.elts):
+                    if isinstance(a, ast.Name):
+                        yield a.id, b, s
+        elif isinstance(s, ast.If):
+            yield from _assigned_pairs(s.body)
+            yield from _assigned_pairs(s.orelse)
+
+
+def _definitely_assigns(stmts, name, twin) -> bool:
+    for s in stmts:
+        if isinstance(s, ast.Assign):
+            for nm, v, _ in _assigned_pairs([s]):
+                if nm == name and isinstance(_strip_copy(v), ast.Name) and _strip_copy(v).id == twin:
+                    return True
+        elif isinstance(s, ast.If) and s.orelse:
+            if _definitely_assigns(s.body, name, twin) and _definitely_assigns(s.orelse, name, twin):
+                return True
+    return False
+
+
+def _r6(chk, repo):
+    ci = repo.cls(f"{SOLVER}:LM")
+    fn = repo.method(ci, "solve")[1]
+    body = strip_docstring(fn.body)
+    loops = [s for s in body if isinstance(s, ast.While)]
+    rets = [s for s in body if isinstance(s, ast.Return)]
+    if len(loops) != 1 or len(rets) != 1 or not isinstance(rets[0].value, ast.Tuple) or not isinstance(rets[0].value.elts[0], ast.Name):
+        raise AnchorError("LM.solve: `while` iteration followed by `return <iterate>, info` not recognised")
+    loop = loops[0]
+    x = rets[0].value.elts[0].id
+    pre = list(_assigned_pairs(body[:body.index(loop)]))
+    inl = list(_assigned_pairs(loop.body))
+    # the accept statement: x := (copy of) another local
+    accept = [(v, s) for nm, v, s in inl if nm == x and isinstance(_strip_copy(v), ast.Name) and _strip_copy(v).id != x]
+    if len(accept) != 1:
+        raise AnchorError("LM.solve: the statement accepting the trial point not recognised")
+    xt = _strip_copy(accept[0][0]).id
+    acc_stmt = accept[0][1]
+    sigma = {x: xt}
+    changed = True
+    while changed:
+        changed = False
+        for v, e, _ in pre:
+            if v in sigma:
+                continue
+            want = _norm(_Subst(sigma).visit(clone(e)))
+            if want == _norm(e):
+                continue                       # does not depend on the iterate
+            for w, e2, _ in inl:
+                if w != v and w not in sigma.values() and _norm(e2) == want:
+                    sigma[v] = w
+                    changed = True
+                    break
+    twins = {v: w for v, w in sigma.items() if v != x}
+    if len(twins) < 3:
+        raise AnchorError(f"LM.solve: trial twins of the iterate-dependent quantities not recognised (found {twins})")
+    # the block that contains the accept statement
+    block = None
+    for node in ast.walk(loop):
+        for fld in ("body", "orelse"):
+            b = getattr(node, fld, None)
+            if isinstance(b, list) and acc_stmt in b:
+                block = b[b.index(acc_stmt):]
+    for v, w in sorted(twins.items()):
+        # a quantity that is recomputed unconditionally from the (new) iterate at the end of every iteration needs no twin assignment
+        recomputed = any(nm == v and s in loop.body for nm, _, s in inl)
+        ok = recomputed or _definitely_assigns(block, v, w)
+        uses = sorted({unparse(s)[:50] for _, e, s in inl if v in {n.id for n in ast.walk(e) if isinstance(n, ast.Name)}})
+        chk.add("C16-R6", f"{ci.qual}.solve/accept/{v}", ok, site(repo, acc_stmt), f"`{v}` := `{w}` together with `{x}` := `{xt}`",
+                f"the accept branch adopts the trial point (`{x}` := `{xt}`) but does not replace `{v}` by its trial twin `{w}` on every path: `{v}` keeps "
+                f"the value computed at an earlier iterate and is still read by {uses}", acc_stmt)
